@@ -80,20 +80,24 @@ theorem tlvLoop_inv {α : Type} (parse : Nat → Bytes → Res α) (fuel : Nat) 
     · exfalso
       have hcons : Lexer.consume ⟨rest, false⟩ (beNat [c, e]) = (none, ⟨rest, true⟩) := by
         simp [Lexer.consume, hl]
-      simp only [hcons] at h
-      cases hp : parse (beNat [a, b]) ((none : Option Bytes).getD []) with
+      simp only [hcons, Option.getD_none] at h
+      cases hp : parse (beNat [a, b]) [] with
       | ok o =>
         simp only [hp] at h
         exact tlvLoop_err_sticky parse fuel ⟨rest, true⟩ _ rfl r h
       | err => simp [hp] at h
       | panic => simp [hp] at h
   · left
-    simp only [hh, if_false] at h
+    have hh' : Lexer.has ⟨d, false⟩ 4 = false := by simpa using hh
+    simp only [hh', Bool.false_eq_true, if_false] at h
     by_cases hf : Lexer.finError ⟨d, false⟩ = true
     · simp [hf] at h
-    · simp only [hf, if_false, Res.ok.injEq] at h
+    · have hf' : Lexer.finError ⟨d, false⟩ = false := by simpa using hf
+      simp only [hf', Bool.false_eq_true, if_false, Res.ok.injEq] at h
       have : d.length = 0 := by
-        simp [Lexer.finError] at hf; omega
+        simp only [Lexer.finError, Bool.false_or, decide_eq_false_iff_not, Nat.not_lt,
+          Nat.le_zero_eq] at hf'
+        exact hf'
       exact ⟨List.eq_nil_of_length_eq_zero this, h.symm⟩
 where
   beNat_lt_two (x y : UInt8) : beNat [x, y] < 65536 := V4.beNat_lt_two x y
